@@ -245,4 +245,12 @@ def main(argv: list[str]) -> int:
 
 
 if __name__ == "__main__":
-    sys.exit(main(sys.argv[1:]))
+    try:
+        code = main(sys.argv[1:])
+    except SystemExit:
+        raise
+    except BaseException:  # noqa: BLE001 - any crash of the machinery is a harness error, never a verdict
+        import traceback
+        traceback.print_exc()
+        code = 2
+    sys.exit(code)
